@@ -32,7 +32,7 @@ ASSUMPTIONS = [
     "the audit-hook monitor sees Python-level events only (exec/compile/open/os.*/subprocess); code execution that raises no audit event is invisible",
     "the reference container reader (oracles/c20_container.py: struct + zlib) is trusted; WOFF2 has no independent table reference (exception type and the undamaged file's tables only)",
     "checksums are not verified (checkChecksums=0, the default)",
-    "E3: a damaged count can make a decoder loop for minutes; a case that has not answered after 2 (quick) / 5 (thorough) CPU seconds is counted under 'undecided: ...' in the unit counters and not judged (the property promises nothing about time); E3 damages plain sfnt files only (not WOFF/WOFF2/TTC members), and 'head' is compared modulo its checkSumAdjustment field (bytes 8..11), which every save recomputes",
+    "E3: a damaged count can make a decoder loop for minutes; a case that has not answered after 4 (quick) / 10 (thorough) CPU seconds is counted under 'undecided: ...' in the unit counters and not judged (the property promises nothing about time); E3 damages plain sfnt files only (not WOFF/WOFF2/TTC members), and 'head' is compared modulo its checkSumAdjustment field (bytes 8..11), which every save recomputes",
     "E4: TTX sites are visited in a document reduced to GlyphOrder + the table carrying the site (first occurrence of the site in its smallest carrier); a site whose evaluation needs other tables to be present is reached only as far as that reduced document allows",
     "E5 not built: designspace `filename` of sources/instances (only read by the library, never written), Windows path semantics ('..\\x' is an ordinary file name on this platform), bitmap extfile is exercised through CBDT only; '.'/'..' as *input file names* of makeOutputFileName are excluded (they name directories)",
     "E6: the fault is an exception raised by the table's compile / the named helper; faults of the operating system during the final write (disk full) are not injected",
@@ -603,7 +603,7 @@ class Undecodable(Unit):
 
     def setup(self, tier, seed):
         self.fonts = {n: d for n, d in corpus.binary_files() if cont.kind_of(d) == "sfnt" and len(d) < MEDIUM}
-        self.limit = 2 if tier == "quick" else 5
+        self.limit = 4 if tier == "quick" else 10
         self.seed = seed
         preload()
 
@@ -742,7 +742,7 @@ def judge_canary(rec, w, what, site_key, sub, exc, canary):
         rec.witness("value reached a parser (compile event only)")
 
 
-def guarded(fn, limit=20):
+def guarded(fn, limit=60):
     """run fn(); -> (exception | None).  BaseException other than Exception is re-raised
     (SystemExit etc. are not ordinary outcomes) except the time guard."""
     import warnings
@@ -1202,7 +1202,7 @@ class SaveCrash(Unit):
             for flavor in ("keep", "woff", "woff2"):
                 font = TTFont(io.BytesIO(data), fontNumber=fn, recalcTimestamp=False)
                 try:
-                    with time_limit(20):
+                    with time_limit(60):
                         table = font[tag]
                 except (Exception, Alarm):
                     rec.count("table does not decode (not a crash point)")
@@ -1357,6 +1357,9 @@ class Paths(Unit):
             yield ["ufo", "layercontents", h]
         for h in ["../outside/sub.ttx", "ABS/sub.ttx"]:
             yield ["xml-src", h]
+
+    def bounds(self, tier, seed):
+        return {"hostile_names": HOSTILE, "cases": len(list(self.cases(tier, seed)))}
 
     def judge(self, rec, case, root, before, allowed, label):
         after = tree_snapshot(root)
